@@ -478,7 +478,7 @@ impl Write for FaultSink {
 
 pub fn main(tier: Tier, replay: Option<String>) -> i32 {
     let mut rep = Report::new("C06", "fault_enumeration", tier);
-    rep.rule = "input half: (a) every byte string up to the bound over all 256 byte values and over a CSV-relevant alphabet, offered as system lexicon, user lexicon and connection matrix; (b) a valid row with every single / pair of hostile field values and arities, system and user; (c) a list of matrix texts; (d) every builder call order up to length 4 ending in compile. Oracle: no panic; if success is reported the dictionary must load, every indexed entry's ids must lie inside the matrix as the lookup formula indexes it, every reference must resolve, and probe texts must analyse. Fault half: for every byte offset k of the baseline output, a sink failing with an error at k and one returning Ok(0) at k (whole writes, and one byte per call): compile must report an error; a sink accepting one byte per call must produce identical bytes. non-trivial = the compiler accepted the input / a fault was injected".into();
+    rep.rule = "input half: (a) every byte string up to the bound over all 256 byte values and over a CSV-relevant alphabet, offered as system lexicon, user lexicon and connection matrix; (b) a valid row with every single / pair of hostile field values and arities, system and user; (c) a list of matrix texts; (d) every builder call order up to the bound (5 quick, 6 thorough) ending in compile. Oracle: no panic; if success is reported the dictionary must load, every indexed entry's ids must lie inside the matrix as the lookup formula indexes it, every reference must resolve, and probe texts must analyse. Fault half: for every byte offset k of the baseline output, a sink failing with an error at k and one returning Ok(0) at k (whole writes, and one byte per call): compile must report an error; a sink accepting one byte per call must produce identical bytes. non-trivial = the compiler accepted the input / a fault was injected".into();
     rep.assumptions = vec!["the probe analysis uses a minimal configuration (simple OOV provider, no other plugin)".into()];
     let e = env();
     let mut jobs: Vec<Box<dyn AnyJob>> = Vec::new();
@@ -511,7 +511,7 @@ pub fn main(tier: Tier, replay: Option<String>) -> i32 {
     // (d)
     {
         let env = e.clone();
-        let cases = order_cases(tier.pick(4, 5));
+        let cases = order_cases(tier.pick(5, 6));
         let n = cases.len();
         jobs.push(job(
             CaseSpace {
@@ -522,7 +522,13 @@ pub fn main(tier: Tier, replay: Option<String>) -> i32 {
                     o.evaluations = 1;
                     let ctx = format!("builder calls {:?}", ops);
                     let valid = rows_to_csv(&env.base_rows);
-                    let inline = format!("{}\n", Row::new("いあ", 1, 1, 5, P_NOUN).splits("C", "い,名詞,普通名詞,一般,*,*,*,イ/あ,名詞,普通名詞,一般,*,*,*,ア", "*").to_csv());
+                    // self-contained: the two words it refers to inline come with it
+                    let inline = format!(
+                        "{}\n{}\n{}\n",
+                        Row::new("あ", 1, 1, 100, P_NOUN).reading("ア").to_csv(),
+                        Row::new("い", 0, 2, -200, P_NOUN).reading("イ").to_csv(),
+                        Row::new("いあ", 1, 1, 5, P_NOUN).splits("C", "い,名詞,普通名詞,一般,*,*,*,イ/あ,名詞,普通名詞,一般,*,*,*,ア", "*").to_csv()
+                    );
                     let badref = format!("{}\n", Row::new("いい", 1, 1, 5, P_NOUN).splits("C", "い,名詞,普通名詞,一般,*,*,*,イ/ん,名詞,普通名詞,一般,*,*,*,ン", "*").to_csv());
                     let matrix = env.matrix.clone();
                     let r = catch(|| {
@@ -567,7 +573,7 @@ pub fn main(tier: Tier, replay: Option<String>) -> i32 {
             },
             Strategy::Bfs,
             Some(tier.pick(60, 600)),
-            json!({"sequences": n, "max_len": tier.pick(4, 5)}),
+            json!({"sequences": n, "max_len": tier.pick(5, 6)}),
         ));
     }
     // (b)
